@@ -311,6 +311,13 @@ def _walkers(ctx: Ctx) -> None:
                 and node.test.left.id == "edge_weight_format"):
             continue
         fmt = repo.const(mod, node.test.comparators[0])
+        okd = len(node.test.ops) == 1 and isinstance(node.test.ops[0], ast.Eq)
+        ctx.ob("D18.2", fi, node, okd,
+               f"the {fmt} reader is selected exactly for "
+               f"EDGE_WEIGHT_FORMAT == {fmt!r}" if okd else
+               f"the {fmt} reader is selected under "
+               f"`{ast.unparse(node.test)}`",
+               construct=f"format dispatch {fmt}")
         if fmt == "FULL_MATRIX":
             found.add(fmt)
             src = ast.unparse(ast.Module(body=node.body, type_ignores=[]))
@@ -424,7 +431,23 @@ def _walkers(ctx: Ctx) -> None:
                f"{fmt}: each number is stored symmetrically at [i, j] and "
                "[j, i]" + ("; diagonal entries are skipped" if sp["diag"]
                            else ""), construct=f"walker {fmt} stores")
-    ctx.floor("explicit_formats", len(found), 4)
+    ctx.count("explicit_formats", len(found))
+    ctx.ob("D18.2", fi, fi.node, len(found) >= 4,
+           "FULL_MATRIX, UPPER_ROW, LOWER_DIAG_ROW and UPPER_DIAG_ROW each "
+           "have a reader" if len(found) >= 4 else
+           f"only {sorted(found)} have a reader", construct="formats covered")
+    outer = [nd for nd in ast.walk(fi.node) if isinstance(nd, ast.If)
+             and isinstance(nd.test, ast.Compare) and isinstance(
+                 nd.test.left, ast.Name)
+             and nd.test.left.id == "edge_weight_type"]
+    oko = len(outer) == 1 and isinstance(
+        outer[0].test.ops[0], ast.Eq) and repo.const(
+        mod, outer[0].test.comparators[0]) == "EXPLICIT"
+    ctx.ob("D18.2", fi, outer[0] if outer else fi.node, oko,
+           "explicit matrices are read exactly for EDGE_WEIGHT_TYPE == "
+           "'EXPLICIT'" if oko else "the explicit readers are not guarded "
+           "by EDGE_WEIGHT_TYPE == 'EXPLICIT'",
+           construct="explicit type guard")
 
 
 # ------------------------------------------------------------------ D18.3
@@ -444,6 +467,22 @@ def _writer(ctx: Ctx) -> None:
                    c.left, ast.Name) and c.left.id == "key"
                and isinstance(c.comparators[0], ast.Name)}
     missing = sorted(emitted - handled - {"_KEY_COMMENT"})
+    need_keys = {"_KEY_NAME", "_KEY_TYPE", "_KEY_DIMENSION",
+                 "_KEY_EDGE_WEIGHT_TYPE", "_KEY_EDGE_WEIGHT_FORMAT"}
+    not_written = sorted(need_keys - emitted)
+    plain = {ast.unparse(c.args[0]) for c in ast.walk(ts.node)
+             if isinstance(c, ast.Call) and isinstance(c.func, ast.Name)
+             and c.func.id == ts.params[1] and c.args
+             and isinstance(c.args[0], ast.Name)}
+    for mk_ in ("_START_EDGE_WEIGHT_SECTION", "_EOF"):
+        if mk_ not in plain:
+            not_written.append(mk_)
+    ctx.ob("D18.3", ts, ts.node, not not_written,
+           "the writer emits NAME, TYPE, DIMENSION, EDGE_WEIGHT_TYPE, "
+           "EDGE_WEIGHT_FORMAT, the section marker and EOF" if
+           not not_written else
+           f"the writer does not emit {not_written}: the file cannot be "
+           "read back", construct="TSPLIB header complete")
     ctx.ob("D18.3", ts, ts.node, not missing and len(emitted) >= 5,
            f"writer emits {sorted(emitted)}; all are handled by the reader "
            "(COMMENT is ignored by design)" if not missing else
@@ -494,27 +533,107 @@ def _writer(ctx: Ctx) -> None:
 
 # ------------------------------------------------------------------ D18.4
 def _tour_parser(ctx: Ctx) -> None:
+    """The result is a permutation of 0..n-1: every id >= 1 is seen once
+    (a set records each accepted id), the count equals the largest id."""
+    from sa.cfg import CFG
     repo = ctx.repo
     fi = repo.func("moptipyapps.tsp.known_optima", "_from_stream")
-    src = ast.unparse(fi.node)
-    dup = any(isinstance(n, ast.If) and n.body and isinstance(
-        n.body[-1], ast.Raise) and isinstance(n.test, ast.Compare)
-        and isinstance(n.test.ops[0], ast.In) for n in ast.walk(fi.node))
-    size = any(isinstance(n, ast.If) and n.body and isinstance(
-        n.body[-1], ast.Raise) and "len(nodes)" in ast.unparse(n.test)
-        and "max_node" in ast.unparse(n.test) and isinstance(
-            n.test.ops[0], ast.NotEq) for n in ast.walk(fi.node))
-    minus1 = "nodes.append(node - 1)" in src
-    rng = any(isinstance(n, ast.Call) and ast.unparse(n.func) ==
-              "check_to_int_range" and len(n.args) >= 3 and repo.const(
-        fi.module, n.args[2]) == 1 for n in ast.walk(fi.node))
-    ok = dup and size and minus1 and rng
-    ctx.ob("D18.4", fi, fi.node, ok,
-           "tour parser: ids >= 1, duplicates rejected, count == largest "
-           "id, stored zero-based: the result is a permutation of 0..n-1"
-           if ok else f"tour parser checks missing: duplicate={dup} "
-           f"size={size} zero_based={minus1} range={rng}",
-           construct="tour parser checks")
+    problems: list[str] = []
+
+    def src(n: ast.AST) -> str:
+        return ast.unparse(n).replace(" ", "")
+    body = func_body(fi)
+    inits = {src(s.targets[0] if isinstance(s, ast.Assign) else s.target):
+             src(s.value) for s in body if isinstance(
+                 s, (ast.Assign, ast.AnnAssign)) and s.value is not None}
+    seen = next((k for k, v in inits.items() if v == "set()"), None)
+    lst = next((k for k, v in inits.items() if v == "[]"), None)
+    mx = next((k for k, v in inits.items() if v in ("-1", "0")
+               and k not in ("in_tour",)), None)
+    flag = next((k for k, v in inits.items() if v == "False"), None)
+    outer = next((s for s in body if isinstance(s, ast.For)), None)
+    inner = next((s for s in ast.walk(outer) if isinstance(s, ast.For)
+                  and s is not outer), None) if outer else None
+    if None in (seen, lst, mx, flag, outer, inner):
+        problems.append("tour parser structure not recognised")
+    else:
+        nv = None
+        for s in inner.body:
+            if isinstance(s, (ast.Assign, ast.AnnAssign)) and isinstance(
+                    s.value, ast.Call) and src(s.value.func) == \
+                    "check_to_int_range":
+                nv = src(s.targets[0] if isinstance(s, ast.Assign)
+                         else s.target)
+                if repo.const(fi.module, s.value.args[2]) != 1 or src(
+                        s.value.args[0]) != src(inner.target):
+                    problems.append("node ids are not converted from "
+                                    "their token with lower limit 1")
+        if nv is None:
+            problems.append("node ids are not range-checked")
+        else:
+            seq = [src(s) for s in inner.body]
+            dup = [s for s in inner.body if isinstance(s, ast.If) and s.body
+                   and isinstance(s.body[-1], ast.Raise)
+                   and src(s.test) == f"{nv}in{seen}"]
+            if not dup:
+                problems.append("an id that was seen before is not "
+                                "rejected")
+            if f"{seen}.add({nv})" not in seq:
+                problems.append("accepted ids are not remembered: "
+                                "duplicates cannot be detected")
+            elif dup and seq.index(f"{seen}.add({nv})") < inner.body.index(
+                    dup[0]):
+                problems.append("the id is remembered before the "
+                                "duplicate test")
+            if f"{mx}=max({mx},{nv})" not in seq and \
+                    f"{mx}=max({nv},{mx})" not in seq:
+                problems.append("the largest id is not tracked")
+            if f"{lst}.append({nv}-1)" not in seq:
+                problems.append("ids are not stored zero-based")
+        # the tour section: ids are only read after TOUR_SECTION, reading
+        # stops at -1 / EOF
+        st = [s for s in outer.body if isinstance(s, ast.If)
+              and isinstance(s.test, ast.Compare) and len(s.test.ops) == 1
+              and isinstance(s.test.ops[0], ast.Eq) and repo.const(
+                  fi.module, s.test.comparators[0]) == "TOUR_SECTION"]
+        if len(st) != 1 or f"{flag}=True" not in [src(x) for x in
+                                                   st[0].body]:
+            problems.append("the TOUR_SECTION marker does not switch the "
+                            "parser to reading ids")
+        guard = next((s for s in outer.body if isinstance(s, ast.If)
+                      and any(inner is x for x in ast.walk(s))), None)
+        if guard is None or src(guard.test) != flag:
+            problems.append("ids are read outside the tour section")
+        brk = [s for s in outer.body if isinstance(s, ast.If) and any(
+            isinstance(x, ast.Break) for x in s.body)]
+        if len(brk) != 1 or not isinstance(
+                brk[0].test, ast.Compare) or not isinstance(
+                brk[0].test.ops[0], ast.In) or set(repo.const(
+                    fi.module, brk[0].test.comparators[0]) or ()) != {
+                "-1", "EOF"}:
+            problems.append("reading does not stop exactly at `-1` / EOF")
+        other_exits = [x for x in ast.walk(outer) if isinstance(
+            x, ast.Break) and not any(x in b.body for b in brk)]
+        if other_exits:
+            problems.append("the line loop is left early elsewhere")
+        size = [s for s in body if isinstance(s, ast.If) and s.body
+                and isinstance(s.body[-1], ast.Raise)
+                and src(s.test) in (f"len({lst})!={mx}",
+                                    f"{mx}!=len({lst})")]
+        if not size:
+            problems.append("the number of ids is not compared with the "
+                            "largest id")
+        rets = [r for r in body if isinstance(r, ast.Return)]
+        if len(rets) != 1 or not src(rets[0].value).startswith(
+                f"np.array({lst},"):
+            problems.append("the id list is not what is returned")
+    ctx.ob("D18.4", fi, fi.node, not problems,
+           "tour parser: ids >= 1 are read only inside TOUR_SECTION up to "
+           "-1/EOF, every accepted id is remembered and a repeated one "
+           "rejected, count == largest id, stored zero-based: the result "
+           "is a permutation of 0..n-1" if not problems else
+           "; ".join(problems), construct="tour parser checks")
+    del CFG
 
 
 # ------------------------------------------------------------------ D18.5
